@@ -212,6 +212,9 @@ CONTEXTS = [('space', ' {v}'), ('paren', '({v})'), ('bracket', '[{v}]'), ('brace
             ('import-then', 'import m1; {v}'), ('from-import-then', 'from m1 import x1; {v}'), ('from-in-comment-before', 'zz = 0  # from\n{v}'),
             ('raise-from-continuation', 'raise E_(0) \\\n    from {v}'), ('yield-from-in-parens', 'def ff():\n    zz = (yield\n        from {v})'),
             ('from-inside-brackets', 'zz = [0,\n    from_zz, {v}]'), ('from-in-string-continuation', 'zz = """\nfrom """ + str({v})'),
+            # one logical line spread over many physical ones: what starts the statement is far above the cursor
+            ('yield-from-far-apart', 'def ff():\n    zz = (yield' + '\n' * 70 + '        from {v})'), ('raise-from-far-apart', 'raise E_(0' + '\n        # filler' * 130 + '\n    ) \\\n    from {v}'),
+            ('from-inside-brackets-far-apart', 'zz = [0,' + '\n    0,' * 300 + '\n    from_zz, {v}]'),
             ('lambda-default', 'lambda q={v}: q'), ('starstar', 'dict(**{v})'), ('matmul', '0@{v}'), ('walrus', '(q := {v})'), ('tab', '\t{v}' if False else 'if 1:\n\t{v}')]
 
 IMPORT_CONTEXTS = ['from m1 import x{C}1', 'from m1 import(x{C}1)', 'from m1 import (x1, y{C}1)', 'from m1 import x1,y{C}1', 'from m1 import x1 as zz, y{C}1',
